@@ -55,6 +55,13 @@ func main() {
 		os.Exit(c.Finish())
 	case "replay":
 		os.Exit(checks.Replay(os.Args[2]))
+	case "warm":
+		os.Exit(checks.Warm())
+	case "regen":
+		if os.Args[2] == "--write" {
+			os.Exit(checks.RegenWrite())
+		}
+		os.Exit(checks.RegenCheck())
 	default:
 		usage()
 	}
